@@ -131,6 +131,9 @@ fn diff(what: &str, got: &Obs, want: &Obs) -> String {
 struct St {
     xot: Xot,
     els: [Node; 2],
+    /// where serialisation starts for each element: E1 sits inside a wrapper that declares
+    /// prefixes (an inherited binding must not stand in for an entry of E1's own map), E2 is a root
+    tops: [Node; 2],
     attrs: [Vec<Entry_>; 2],
     nss: [Vec<Entry_>; 2],
     akeys: Vec<(String, NameId)>,
@@ -255,7 +258,8 @@ impl St {
             }
             // serialisation order: output events and the start tag as written
             let x = &self.xot;
-            let outs = bounded(x.outputs(e), 4 * LIM, "outputs")?;
+            let top = self.tops[i];
+            let outs = bounded(x.outputs(top), 4 * LIM, "outputs")?;
             let mut ev_ns = vec![];
             let mut ev_at = vec![];
             let mut seen_attr = false;
@@ -286,10 +290,12 @@ impl St {
             if ev_at != want_a.iter {
                 return Err(format!("outputs(E{}): Attribute events {:?}, reference order {:?}", i + 1, ev_at, want_a.iter));
             }
-            match guarded(|| x.to_string(e)) {
+            match guarded(|| x.to_string(top)) {
                 Ok(Ok(s)) => {
                     let toks = xmltok::tokenize(&s).map_err(|m| format!("cannot tokenize {:?}: {}", s, m))?;
-                    if let Some(Tok::Start { attrs, .. }) = toks.first() {
+                    // the start tag of E: the first one when E is the top, else the second
+                    let nth = if top == e { 0 } else { 1 };
+                    if let Some(Tok::Start { attrs, .. }) = toks.iter().filter(|t| matches!(t, Tok::Start { .. })).nth(nth) {
                         let mut want: Vec<String> = vec![];
                         for en in &self.nss[i] {
                             if en.key == "xml" {
@@ -376,9 +382,20 @@ impl Property for C11 {
         // empty element and one with ordinary children
         let _ = xot.append_text(e2, "t");
         let _ = xot.append_element(e2, ename);
+        // E1 lives inside a wrapper that binds p and q (to the two namespaces the pool uses)
+        let wname = xot.add_name("w");
+        let w = xot.new_element(wname);
+        {
+            let (pp, pq) = (xot.add_prefix("p"), xot.add_prefix("q"));
+            let (ua, ub) = (xot.add_namespace("urn:a"), xot.add_namespace("urn:b"));
+            xot.namespaces_mut(w).insert(pp, ua);
+            xot.namespaces_mut(w).insert(pq, ub);
+        }
+        let _ = xot.append(w, e1);
         let mut st = St {
             xot,
             els: [e1, e2],
+            tops: [w, e2],
             attrs: [vec![], vec![]],
             nss: [vec![], vec![]],
             akeys,
@@ -439,6 +456,39 @@ impl Property for C11 {
                     let v = vals[src.choice(vals.len())].to_string();
                     let pos = st.attrs[i].iter().position(|en| en.key == ks);
                     let opc = src.choice(19);
+                    if opc == 0 && src.ratio(1, 5) {
+                        // several updates through ONE mutable view: insert, remove the same key, insert another
+                        let k2 = src.choice(st.akeys.len());
+                        let (ks2, kid2) = st.akeys[k2].clone();
+                        let v2 = vals[src.choice(vals.len())].to_string();
+                        log.push(format!("one view of E{}.attr: insert({},{:?}); remove({}); insert({},{:?})", i + 1, ks, v, ks, ks2, v2));
+                        {
+                            let mut m = st.xot.attributes_mut(e);
+                            m.insert(kid, v.clone());
+                            let r = m.remove(kid);
+                            if r != Some(v.clone()) {
+                                return Err(format!("remove right after insert through the same view returned {:?}", r));
+                            }
+                            m.insert(kid2, v2.clone());
+                        }
+                        if let Some(p) = pos {
+                            if p + 1 < st.attrs[i].len() {
+                                removed_middle = true;
+                            }
+                            st.attrs[i].remove(p);
+                        }
+                        match st.attrs[i].iter().position(|en| en.key == ks2) {
+                            Some(p2) => {
+                                st.attrs[i][p2].val = v2;
+                                upd_in_place = true;
+                            }
+                            None => {
+                                let node = st.xot.attributes(e).get_node(kid2).ok_or("batched insert left no node")?;
+                                st.attrs[i].push(Entry_ { key: ks2, val: v2, node });
+                            }
+                        }
+                        return Ok(());
+                    }
                     match opc {
                         0 | 1 => {
                             // insert / set_attribute
@@ -744,6 +794,8 @@ impl Property for C11 {
                     let uid = st.xot.add_namespace(&u);
                     let pos = st.nss[i].iter().position(|en| en.key == ks);
                     let opc = src.choice(13);
+                    // (late draw) the default prefix may also be bound to "no namespace": xmlns=""
+                    let (u, uid) = if ks.is_empty() && src.ratio(1, 4) { (String::new(), st.xot.no_namespace()) } else { (u, uid) };
                     match opc {
                         0 | 1 => {
                             let via_create = opc == 1 && src.ratio(1, 3);
